@@ -5,6 +5,10 @@ mod cases;
 mod catalogue;
 mod collect;
 mod fam_builtin;
+mod fam_decl;
+mod generated {
+    pub mod decls;
+}
 mod fam_varint;
 mod model;
 mod rng;
@@ -95,6 +99,8 @@ fn main() {
         "ty" => fam_builtin::run_ty(&a),
         "raw" => fam_builtin::run_raw(&a),
         "varint" => fam_varint::run(&a),
+        "decl" => fam_decl::run_decl(&a),
+        "hist" => fam_decl::run_hist(&a),
         other => {
             eprintln!("unknown family {}", other);
             std::process::exit(2);
